@@ -3,7 +3,7 @@ from .common import *
 from spec.protocol_doc import block_named, in_docset
 from .hsm2dongle_basic import ok
 from .hsm2dongle_state import frame_some
-from .ledger_protocol import PROTO, handler_clauses, handler_raises, ci, ALLH, RES
+from .ledger_protocol import PROTO, handler_clauses, handler_raises, ci, ALLH, RES, proto_invariant
 
 ADV_RESULT = TUPLE(BOOL_, INT_)
 
@@ -84,7 +84,7 @@ class AdvanceHandler(Contract):
     exception_serves = ("C03", "C04")
 
     def validated(request): return blocks_validated(request) and jhas(request, "brothers")
-    requires = [validated]
+    requires = [validated, proto_invariant]
 
     @only("C04", "C05")
     def success_iff_device_succeeded(result, g, old):
@@ -109,7 +109,7 @@ class UpdateAncestorHandler(Contract):
     exception_serves = ("C03", "C04")
 
     def validated(request): return blocks_validated(request)
-    requires = [validated]
+    requires = [validated, proto_invariant]
 
     @only("C04", "C05")
     def success_iff_device_succeeded(result, g, old):
